@@ -233,9 +233,12 @@ def rule_no_replacement(ctx, rid):
     P = ctx.P
     from ..effects import MutationAnalysis
     ma = MutationAnalysis(P)
+    from ..paths import known_functions
     for q, fi in sorted(P.funcs.items()):
         if fi.module.name != 'emd.sift' or fi.parent is not None:
             continue
+        if q not in known_functions() and fi.name.startswith('_'):
+            continue      # private helpers introduced later are covered through the summaries of their callers
         opts = [f for f in fi.all_formals() if f.endswith('_opts') or f.endswith('_args')]
         if not opts:
             continue
